@@ -6,6 +6,7 @@ import (
 	"go/constant"
 	"go/token"
 	"go/types"
+	"os"
 	"sort"
 	"strings"
 
@@ -800,6 +801,11 @@ func c02Labels(c *Ctx, p *Prog) {
 			}
 			n++
 			key := fmt.Sprintf("Files.init[labelled=%v]#%d", labelled, n)
+			if os.Getenv("PERFCHECK_DEBUG") != "" {
+				for _, k := range sortedKeys(o.Mem) {
+					fmt.Fprintf(os.Stderr, "MEM %s = %s\n", k, o.Mem[k])
+				}
+			}
 			c.Check((counted == 1) == !labelled, R, key, site, fmt.Sprintf("labelled=%v, counted towards duplicates=%v", labelled, counted == 1),
 				fmt.Sprintf("an input with explicit label=%v is counted %d times towards 'same path given more than once': a path given once plainly and once as label=path makes the plain one look duplicated (its results get .file \"path#0\"), or an unlabelled duplicate is not disambiguated (%s)", labelled, counted, o.AssignStr()))
 		}
